@@ -6,4 +6,5 @@ pub mod gen;
 pub mod mockio;
 pub mod props;
 pub mod refcodec;
+pub mod sim;
 pub mod world;
